@@ -592,7 +592,7 @@ def analyze(ctx, want):
     # ------------------------------------------------------------------ satisfies_lookahead polarity table (C04.b)
     sl = F.fn(r"CompiledLookahead::satisfies_lookahead$")
     ctx.analysed_fn(sl)
-    ex = S.Engine(sl, F, Model(), cut_edges=sl.back_edges(), inline=GETTERS)
+    ex = S.Engine(sl, F, Model(), cut_edges=sl.back_edges(), inline=GETTERS, desugar=r"option::Option::<")
     ps = ex.run(0, init_params(sl, ex.fid))
     rows = {}
     for p in ret_paths(ps):
